@@ -1,4 +1,4 @@
-import BiotiteModel.Proofs.C01Ref
+import BiotiteModel.Proofs.C01RefConcat
 /-! Refinement of the register machine: `Sstep ∘ absState = absState ∘ step`. -/
 namespace BiotiteModel.C01
 
@@ -53,11 +53,8 @@ theorem bind_abs {β γ} (st : State) (s : Nat) (hst : WFState st) (f : Arr → 
   | error e => rfl
   | ok a => exact h a (arrOf_wf hst ha)
 
-/-- operations the refinement theorem covers (everything except `concatenate` and the `==` observation) -/
-def Covered : Op → Prop
-  | .concat _ _ => False
-  | .eq _ _ => False
-  | _ => True
+/-- operations the refinement theorem covers: all of them (kept so that statements mention coverage explicitly) -/
+def Covered : Op → Prop := fun _ => True
 
 theorem step_refines (st : State) (op : Op) (hst : WFState st) (hc : Covered op) :
     Sstep (absState st) op = absStep (step st op) := by
@@ -84,7 +81,14 @@ theorem step_refines (st : State) (op : Op) (hst : WFState st) (hc : Covered op)
     simp only [Sstep, step]
     rw [bind_abs st s hst (fun a => delitem a ix) _ abs (fun a ha => Sdelitem_ref a ix ha)]
     exact sputArr_abs _ _ _
-  | concat d ss => exact absurd hc (by simp [Covered])
+  | concat d ss =>
+    simp only [Sstep, step]
+    rw [sarrsOf_abs]
+    have : ((arrsOf st ss).map (·.map abs)).bind Sconcatenate = ((arrsOf st ss).bind concatenate).map abs := by
+      cases has : arrsOf st ss with
+      | error e => rfl
+      | ok as => exact Sconcatenate_ref as (arrsOf_wf hst has)
+    rw [this]; exact sputArr_abs _ _ _
   | stack d ss =>
     simp only [Sstep, step]
     rw [sarrsOf_abs]
@@ -144,6 +148,16 @@ theorem step_refines (st : State) (op : Op) (hst : WFState st) (hc : Covered op)
     | none => rfl
     | atom t => simp only [absVal, absStep, absOut, absState_set]
     | arr a => simp only [absVal, absStep, absOut, absState_set]
-  | eq s t => exact absurd hc (by simp [Covered])
+  | eq s t =>
+    simp only [Sstep, step]
+    rw [sarrOf_abs, sarrOf_abs]
+    cases ha : arrOf st s with
+    | error e => rfl
+    | ok a =>
+      cases hb : arrOf st t with
+      | error e => rfl
+      | ok b =>
+        simp only [Except.map, absStep, absOut]
+        rw [SequalArr_ref a b (arrOf_wf hst ha) (arrOf_wf hst hb)]
 
 end BiotiteModel.C01
